@@ -7,6 +7,12 @@ import (
 	"github.com/mk6i/mkdb/storage"
 )
 
+// updateValidator is implemented by relation managers that can check an
+// update of a row without applying it.
+type updateValidator interface {
+	ValidateUpdate(tableName string, rowID uint32, cols []string, updateSrc []interface{}) error
+}
+
 func EvaluateUpdate(q sql.UpdateStatementSearched, rm RelationManager) error {
 	rm.StartTxn()
 	defer rm.EndTxn()
@@ -36,6 +42,16 @@ func EvaluateUpdate(q sql.UpdateStatementSearched, rm RelationManager) error {
 	for _, set := range q.Set {
 		cols = append(cols, set.ObjectColumn)
 		updateSrc = append(updateSrc, set.UpdateSource)
+	}
+
+	// check every row before changing the first one, so that a statement
+	// that fails leaves nothing behind
+	if v, ok := rm.(updateValidator); ok {
+		for _, row := range rows {
+			if err := v.ValidateUpdate(q.TableName, row.RowID, cols, updateSrc); err != nil {
+				return err
+			}
+		}
 	}
 
 	var batch storage.WALBatch
